@@ -32,6 +32,11 @@ class ClearNode(ConfigNode):
         return node
 
     @namespace('ayns')
+    @property
+    def value(self):
+        return str()
+
+    @namespace('ayns')
     @staticproperty
     @staticmethod
     def tag():
